@@ -229,7 +229,7 @@ class Ctx(object):
 # Hypothesis driver
 
 def hyp_search(ctx, strategy, fn, max_examples, name='', max_buckets=6, shrink=True,
-               stateful_steps=None):
+               stateful_steps=None, realtime=False):
     """Search `strategy` for a value on which fn(value) raises Violation.
 
     Hypothesis stops at the first failure, so the search is repeated with every bucket found so
@@ -290,6 +290,12 @@ def hyp_search(ctx, strategy, fn, max_examples, name='', max_buckets=6, shrink=T
             v = last.get('v')
             if v is None:
                 raise
+            if realtime:
+                # (checks over real sockets and real time: the difference may be the machine's, not the library's)
+                ctx.inconclusive += 1
+                ctx.label('inconclusive')
+                ignored.add(v.key)
+                continue
             ctx.fail(v.key, v.what + ' [outcome for this input changed between executions: the library keeps '
                      'state across calls]', v.case)
             ignored.add(v.key)
